@@ -18,6 +18,35 @@ import (
 	"verifharness/hx"
 )
 
+// A panic inside an API call made by a harness goroutine is recovered and recorded (the case is
+// then reported with the panic text and its input); a panic inside one of the broadcaster's own
+// goroutines kills the process: the supervisor in main.go turns that into a case as well.
+var (
+	c11PanicMu sync.Mutex
+	c11Panics  []string
+)
+
+func c11Guard(what string, f func()) (ok bool) {
+	defer func() {
+		if p := recover(); p != nil {
+			c11PanicMu.Lock()
+			c11Panics = append(c11Panics, fmt.Sprintf("%s panicked: %v", what, p))
+			c11PanicMu.Unlock()
+			ok = false
+		}
+	}()
+	f()
+	return true
+}
+
+func c11TakePanics() []string {
+	c11PanicMu.Lock()
+	defer c11PanicMu.Unlock()
+	ps := c11Panics
+	c11Panics = nil
+	return ps
+}
+
 // Observed event: kind 0 = subscriber I received V; 1 = the call issued at step V returned.
 // Step = the script step after which (at quiescence) the driver found it.
 type c11Ev struct {
@@ -187,8 +216,9 @@ func c11Exec(ops []c11Op) ([]c11Op, []c11Ev, c11Stats, error) {
 	call := func(step int, f func()) {
 		st.calls++
 		go func() {
-			f()
-			r.rec(evDone, 0, step)
+			if c11Guard(fmt.Sprintf("the call of step %d", step), f) {
+				r.rec(evDone, 0, step)
+			}
 		}()
 	}
 	drain := func(step int) {
@@ -274,7 +304,7 @@ func c11Exec(ops []c11Op) ([]c11Op, []c11Ev, c11Stats, error) {
 	}
 	close(r.quit)
 	if !closeCalled {
-		go r.b.Close()
+		go c11Guard("Close (epilogue)", r.b.Close)
 	}
 	if err := c11Settle(); err != nil && runErr == nil {
 		runErr = err
@@ -340,7 +370,7 @@ func c11ExecConc(in c11Input) c11ConcResult {
 		cancels = append(cancels, cancel)
 		ch := make(chan int)
 		go consumer(i, ch)
-		b.Subscribe(ctx, ch)
+		c11Guard("Subscribe", func() { b.Subscribe(ctx, ch) })
 	}
 	for i := 0; i < in.Stay; i++ {
 		subscribe(i)
@@ -380,7 +410,7 @@ func c11ExecConc(in c11Input) c11ConcResult {
 			for j := 0; j < in.K; j++ {
 				v := g*in.K + j + 1
 				s := int(clock.Add(1))
-				b.Broadcast(v)
+				c11Guard(fmt.Sprintf("Broadcast(%d)", v), func() { b.Broadcast(v) })
 				e := int(clock.Add(1))
 				cmu.Lock()
 				res.calls = append(res.calls, c11Call{v, s, e})
@@ -411,7 +441,7 @@ func c11ExecConc(in c11Input) c11ConcResult {
 			defer wg.Done()
 			<-start
 			c11Spin(d)
-			b.Subscribe(ctx, ch)
+			c11Guard("Subscribe (late joiner)", func() { b.Subscribe(ctx, ch) })
 			res.lateStamp = int(clock.Add(1))
 		}()
 	}
@@ -423,7 +453,7 @@ func c11ExecConc(in c11Input) c11ConcResult {
 			<-start
 			c11Spin(d)
 			s := int(clock.Add(1))
-			b.Close()
+			c11Guard("Close", b.Close)
 			e := int(clock.Add(1))
 			cmu.Lock()
 			res.closes = append(res.closes, [2]int{s, e})
@@ -465,7 +495,7 @@ func c11ExecConc(in c11Input) c11ConcResult {
 		lateCancel()
 	}
 	close(quit)
-	go b.Close()
+	go c11Guard("Close (epilogue)", b.Close)
 	_ = c11Settle()
 	return res
 }
@@ -503,16 +533,19 @@ func c11ExecRush(in c11Input) c11RushResult {
 		oneClosed := make(chan struct{})
 		var once sync.Once
 		doClose := func() {
-			b.Close()
-			once.Do(func() { close(oneClosed) })
+			if c11Guard("Close", b.Close) {
+				once.Do(func() { close(oneClosed) })
+			}
 		}
 		if in.Mode == "seq" {
 			go func() {
 				for i := range chs {
-					b.Subscribe(ctxs[i], chs[i])
+					i := i
+					c11Guard("Subscribe", func() { b.Subscribe(ctxs[i], chs[i]) })
 				}
 				for v := 1; v <= in.Bcasts; v++ {
-					b.Broadcast(v)
+					v := v
+					c11Guard(fmt.Sprintf("Broadcast(%d)", v), func() { b.Broadcast(v) })
 				}
 				for k := 0; k < ncl; k++ {
 					doClose()
@@ -528,11 +561,11 @@ func c11ExecRush(in c11Input) c11RushResult {
 			}
 			for i := range chs {
 				i := i
-				spawn(func() { b.Subscribe(ctxs[i], chs[i]) })
+				spawn(func() { c11Guard("Subscribe", func() { b.Subscribe(ctxs[i], chs[i]) }) })
 			}
 			for v := 1; v <= in.Bcasts; v++ {
 				v := v
-				spawn(func() { b.Broadcast(v) })
+				spawn(func() { c11Guard(fmt.Sprintf("Broadcast(%d)", v), func() { b.Broadcast(v) }) })
 			}
 			for k := 0; k < ncl; k++ {
 				spawn(doClose)
@@ -628,14 +661,14 @@ func c11ExecDup(in c11Input) (shared, other []int, err error) {
 		for i := range chs {
 			chs[i] = sch
 		}
-		b.Subscribe(newCtx(), chs...)
+		c11Guard("Subscribe", func() { b.Subscribe(newCtx(), chs...) })
 	} else {
 		for i := 0; i < in.Copies; i++ {
-			b.Subscribe(newCtx(), sch)
+			c11Guard("Subscribe", func() { b.Subscribe(newCtx(), sch) })
 		}
 	}
 	lastCopy := cancels[len(cancels)-1]
-	b.Subscribe(newCtx(), och)
+	c11Guard("Subscribe", func() { b.Subscribe(newCtx(), och) })
 	fin := make(chan struct{})
 	go func() {
 		defer close(fin)
@@ -649,7 +682,8 @@ func c11ExecDup(in c11Input) (shared, other []int, err error) {
 					return
 				}
 			}
-			b.Broadcast(v)
+			v := v
+			c11Guard(fmt.Sprintf("Broadcast(%d)", v), func() { b.Broadcast(v) })
 		}
 		if in.Leave == in.Bcasts+1 {
 			if err = c11Settle(); err == nil {
@@ -675,7 +709,7 @@ func c11ExecDup(in c11Input) (shared, other []int, err error) {
 		c()
 	}
 	close(quit)
-	go b.Close()
+	go c11Guard("Close (epilogue)", b.Close)
 	_ = c11Settle()
 	return shared, other, err
 }
